@@ -137,6 +137,9 @@ type Op struct {
 	// it while the following ops run) / its call succeeds / its call fails
 	U   int  `json:"u,omitempty"`
 	Rev bool `json:"revert,omitempty"` // begin: UpdatePoliciesData(_, unmanageImmediately = true)
+	// update / refuse / begin / fupd: the real entry point the update goes through
+	// (tofree | toloaded | reload | raw; see entry.go); "" = UpdatePoliciesData with a harness-built object
+	Via string `json:"via,omitempty"`
 	// suite fine (see fine.go): fget G Txn / fupd U Tag / fvac W start a goroutine
 	// (wake a vacuum loop), fgo Who G|U|W lets it run to its next call-out (Fail:
 	// its HAProxy call fails), frun to the end of its operation
@@ -154,6 +157,7 @@ type Ev struct {
 	A        string `json:"act"` // get | update | refused | vactxn | vacver | req | resp | updbegin | updcommit | updfail | blocked
 	Txn      int    `json:"txn,omitempty"`
 	U        int    `json:"u,omitempty"`        // updbegin / updcommit / updfail: id of the update
+	Via      string `json:"via,omitempty"`      // update / refused / updbegin / updcommit / updfail: entry point the update came through
 	What     string `json:"what,omitempty"`     // blocked: the op that did not complete inside the call window
 	InFlight []int  `json:"in_flight,omitempty"` // ids of the updates that were inside their HAProxy call when the action ran
 	InCommit bool   `json:"inside_commit,omitempty"` // the look-up ran at the clock reading of the commit recorded just before it
@@ -251,6 +255,7 @@ type hist struct {
 	inCommit bool          // the ops being executed run at the clock reading of a commit
 	pending  chan struct{} // an operation started at a commit's clock reading that has not completed yet
 	abandoned atomic.Bool  // suite fine: the history is over, nobody is held any more
+	via       map[int]string // object -> entry point that supplied it (entry.go)
 }
 
 func (h *hist) park(first bool) *sleeper {
@@ -321,6 +326,10 @@ func (h *hist) ev(a string, txn, obj, tag int, implicit bool) *Ev {
 	now := h.clk.ns()
 	e := Ev{A: a, Txn: txn, Obj: obj, Tag: tag, Now: now,
 		Rel: rel(now - h.k.T0), Implicit: implicit, InFlight: h.inFlightIDs(), InCommit: h.inCommit, PreEnq: h.preEnq}
+	switch a {
+	case "update", "refused", "updbegin", "updcommit", "updfail":
+		e.Via = h.via[obj]
+	}
 	h.observe(&e)
 	if a == "get" || a == "req" || a == "resp" {
 		e.Ver = -1
@@ -544,16 +553,17 @@ func (h *hist) do(op Op) {
 		}
 		h.loopStarted(0)
 	case "update", "revert", "refuse":
-		p, obj := h.newObj(op.Tag, op.K == "refuse")
+		call, obj := h.prepare(op.Via, op.Tag, op.K == "refuse", op.K == "revert")
 		stub.cur.Store(nil)
 		haproxyDown.Store(op.K == "refuse")
 		var fired *bool
 		if len(op.In) > 0 && op.K != "refuse" {
 			fired = h.armCommit("update", 0, obj, op.Tag, op.In)
 		}
-		err := h.acc.UpdatePoliciesData(p, op.K == "revert")
+		err := call()
 		haproxyDown.Store(false)
 		h.disarm()
+		noteEntryError(op.Via, err, op.K == "refuse")
 		if err != nil {
 			h.ev("refused", 0, obj, op.Tag, false)
 			break
@@ -924,6 +934,7 @@ func runRouting(o *c.Out, k Case) {
 	}
 	o.CountN("routing:retry_actions", retries)
 	w.count(o, "routing:")
+	countFailsafe(o, "routing:", &k)
 	idx := o.Case("routing", coq(&k), k, (foreign > 0 && across > 0 && retries > 0) || (w.firstInsideThenAgain && retries > 0))
 	o.MonitorChecked(1)
 	for _, h := range monitorRouting(&k) {
@@ -1042,14 +1053,14 @@ func randomRouting(o *c.Out) {
 				queues[s] = queues[s][1:]
 				left--
 			case x < 60:
-				k.Ops = append(k.Ops, Op{K: c.Pick(r, []string{"update", "update", "revert"}), Tag: r.Intn(4)})
+				k.Ops = append(k.Ops, Op{K: c.Pick(r, []string{"update", "update", "revert"}), Tag: r.Intn(4), Via: pickVia(r, 45)})
 				obj = objs
 				objs++
 			case x < 66:
 				if len(fl) >= 2 || blockedSeen >= 8 {
 					continue
 				}
-				k.Ops = append(k.Ops, Op{K: "begin", U: nextU, Tag: r.Intn(4), Rev: r.Chance(1, 4)})
+				k.Ops = append(k.Ops, Op{K: "begin", U: nextU, Tag: r.Intn(4), Rev: r.Chance(1, 4), Via: pickVia(r, 45)})
 				fl = append(fl, [2]int{nextU, objs})
 				nextU++
 				objs++
@@ -1066,7 +1077,7 @@ func randomRouting(o *c.Out) {
 				}
 				fl = append(fl[:w], fl[w+1:]...)
 			case x < 74:
-				k.Ops = append(k.Ops, Op{K: "refuse", Tag: r.Intn(4)})
+				k.Ops = append(k.Ops, Op{K: "refuse", Tag: r.Intn(4), Via: pickVia(r, 45)})
 				objs++
 			case x < 86:
 				k.Ops = append(k.Ops, Op{K: "adv", D: c.Pick(r, deltas)})
@@ -1141,6 +1152,7 @@ func run(o *c.Out, k Case) {
 		o.Count("relookup_within_1ns_of_30s")
 	}
 	w.count(o, "")
+	countFailsafe(o, "", &k)
 	idx := o.Case("hist", coq(&k), k, (ups > 0 && relook && removed) || w.firstInsideThenAgain)
 	o.MonitorChecked(1)
 	for _, h := range monitor(&k) {
@@ -1245,6 +1257,7 @@ func main() {
 	zerolog.SetGlobalLevel(zerolog.Disabled)
 	o := c.NewOut("C11")
 	http.DefaultClient.Transport = stub
+	entrySetup()
 	o.DeclareSuite("hist", "From Verif Require Import C11.Model.", "case", "run_case")
 	o.DeclareSuite("routing", "From Verif Require Import C11.Model.", "rcase", "run_rcase")
 	o.DeclareSuite("fine", "From Verif Require Import C11.Model C11.Fine.", "fcase", "run_fcase")
@@ -1264,7 +1277,11 @@ func main() {
 		"look-up, the HAProxy call) while others run: grid (two first look-ups of one transaction in progress with an update before/between/after their " +
 		"setTxnVersion sections; the clock readings of a look-up's and an update's VacuumKey in either order; a pass finishing on an old snapshot / clock " +
 		"reading; the fallback branch with an update in between; overlapping setNextVersion) + random schedules decided step by step; non-trivial = at least " +
-		"3 steps ran while another goroutine was inside an operation")
+		"3 steps ran while another goroutine was inside an operation. " +
+		"Entry points (all three suites): about half of the updates of the random generators and dedicated grids go through the REAL RevertToDiagnosisFree / " +
+		"RevertToLastLoaded / ReloadFromFile / UpdateRawData (the harness writes the file they read; the object is built by the code, diagnosisFreeReverted included): " +
+		"fail-safe activates, a request is first seen, the fail-safe is lifted through each entry point (atomic, split at the HAProxy call, held at setNextVersion's clock reading), " +
+		"the response 0 / 1 ns / 5 s / 30 s -1/0/+1 ns later with passes; the fail-safe flapping")
 	var k Case
 	if suite, ok := o.ReplayCase(&k); ok {
 		if suite == "fine" || k.Fine {
@@ -1282,10 +1299,13 @@ func main() {
 		grid(o)
 		windowGrid(o)
 		commitArrivals(o)
+		failsafeGrid(o)
 		gridRouting(o)
+		failsafeGridRouting(o)
 		windowGridRouting(o)
 		commitArrivalsRouting(o)
 		fineGrid(o)
+		fineFailsafe(o)
 	}
 	fineRandom(o)
 	random(o)
@@ -1298,6 +1318,10 @@ func main() {
 	if fineStuck > 0 {
 		o.Note(fmt.Sprintf("suite fine: in %d histories a goroutine reached no call-out within %v (it waits for a lock held by a goroutine parked at a call-out); "+
 			"the suite stops after 4", fineStuck, stuckBound))
+	}
+	if entryErrors > 0 {
+		o.Note(fmt.Sprintf("%d calls of a real update entry point failed although HAProxy answered (nothing was installed; recorded as refused updates); first: %s",
+			entryErrors, entryErrMsg))
 	}
 	if vacuumNeverStarts {
 		o.Note("a vacuum loop was never seen entering Sleep after the first VacuumKey; its passes could not be driven")
@@ -1373,10 +1397,10 @@ func random(o *c.Out) {
 				k.Ops = append(k.Ops, Op{K: "get", Txn: r.Range(1, ntx)})
 				marks = append(marks, now)
 			case x < 46:
-				k.Ops = append(k.Ops, Op{K: c.Pick(r, []string{"update", "update", "revert"}), Tag: r.Intn(4)})
+				k.Ops = append(k.Ops, Op{K: c.Pick(r, []string{"update", "update", "revert"}), Tag: r.Intn(4), Via: pickVia(r, 45)})
 				marks = append(marks, now)
 			case x < 48:
-				k.Ops = append(k.Ops, Op{K: "refuse", Tag: r.Intn(4)})
+				k.Ops = append(k.Ops, Op{K: "refuse", Tag: r.Intn(4), Via: pickVia(r, 45)})
 			case x < 64:
 				d := c.Pick(r, deltas)
 				k.Ops = append(k.Ops, Op{K: "adv", D: d})
